@@ -14,6 +14,7 @@ mod ops_flow;
 mod ops_issue;
 mod ops_pok;
 mod ops_registry;
+mod ops_revoc;
 mod util;
 
 fn dispatch(v: &Value) -> Value {
@@ -25,6 +26,7 @@ fn dispatch(v: &Value) -> Value {
         "f_create" => ops_create::run(op, v),
         "f_pres" => ops_adv::run(op, v),
         "f_acc" => ops_acc::run(op, v),
+        "f_revoc" => ops_revoc::run(op, v),
         "f_registry" => ops_registry::run(op, v),
         o if o.starts_with("f_") => ops_flow::run(o, v),
         _ => json!({"r": "harness-error", "msg": format!("unknown op {op}")}),
